@@ -143,6 +143,19 @@ def run(W, cfg):
     samples = [((r, c), optics.phasor(W, amp[r, c], opd[r, c], lam)) for r, c in cfg['support']]
     want = optics.fraunhofer(W, samples, (nr, nc), lam, f, dx, du, os, S, inside)
     W.ob('field', out.field, W.array(want) if not W.sym else W.array(want))
+    # the same wavefront propagated a second time (its fields are the caller's: untouched by the first propagation), and the same mask
+    # array refilled in place with another window
+    again = lt.propagate_dft(w, pixelscale=du_arg, oversample=os, mask=omask, **kw)
+    W.ob('field, second propagation of the same wavefront', again.field, out.field)
+    if omask is not None:
+        flipped = [row[::-1] for row in cfg['mask'][::-1]]
+        scale_ = omask.max() if cfg.get('soft') else 1
+        omask[...] = rnp.array(flipped) * scale_
+        bb2 = optics.bbox(flipped)
+        want2 = optics.fraunhofer(W, samples, (nr, nc), lam, f, dx, du, os, S,
+                                  lambda i, j: wr[0] <= i <= wr[1] and wc[0] <= j <= wc[1] and bb2[0] <= i <= bb2[1] and bb2[2] <= j <= bb2[3])
+        third = lt.propagate_dft(w, pixelscale=du_arg, oversample=os, mask=omask, **kw)
+        W.ob('field, the mask array refilled in place with another window', third.field, W.array(want2))
     W.ob('wavelength', out.wavelength, lam)
     W.ob('focal_length', out.focal_length, f)
     W.ob('pixelscale', [out.pixelscale[0], out.pixelscale[1]], [du[0] / os, du[1] / os])
